@@ -656,20 +656,6 @@ Fixpoint settle_nd (v : variant) (auto_app : bool) (lazy : bool) (fuel : nat) (s
     end
   end.
 
-Fixpoint run_group_nd (v : variant) (auto_app : bool) (evs : list event) (p : cand) : list cand :=
-  match evs with
-  | [] => settle_nd v auto_app false settle_fuel [] p
-  | e :: r =>
-    match step v (fst p) e with
-    | Some s1 => run_group_nd v auto_app r (s1, snd p ++ [e])
-    | None =>
-      flat_map (fun p2 => match step v (fst p2) e with
-                          | Some s3 => run_group_nd v auto_app r (s3, snd p2 ++ [e])
-                          | None => []
-                          end) (settle_nd v auto_app true settle_fuel [] p)
-    end
-  end.
-
 (* Different resolutions often meet in the same state; candidates are compared
    on everything [step] reads except the pending table (which the callers'
    program counters determine) and one of each kind is kept.  Dropping a
@@ -711,24 +697,46 @@ Definition same_state (a b : state) : bool :=
 Definition dedup (cs : list cand) : list cand :=
   fold_left (fun acc p => if existsb (fun q => same_state (fst q) (fst p)) acc then acc else acc ++ [p]) cs [].
 
+Fixpoint run_group_nd (v : variant) (auto_app : bool) (evs : list event) (p : cand) : list cand :=
+  match evs with
+  | [] => settle_nd v auto_app false settle_fuel [] p
+  | e :: r =>
+    match step v (fst p) e with
+    | Some s1 => run_group_nd v auto_app r (s1, snd p ++ [e])
+    | None =>
+      flat_map (fun p2 => match step v (fst p2) e with
+                          | Some s3 => run_group_nd v auto_app r (s3, snd p2 ++ [e])
+                          | None => []
+                          end) (dedup (settle_nd v auto_app true settle_fuel [] p))
+    end
+  end.
+
+(* the snapshot compared by the search also says WHOSE frames have reached the
+   transport so far, in order (the octets on the wire are an observable of C14;
+   without it a wrong guess about which waiting sender went first would survive
+   until the final observation and multiply) *)
+Definition snap2 := (snap * list Z)%type.
+Definition snapshot2 (s : state) : snap2 := (snapshot s, wire_ids s).
+Definition beq_snap2 (a b : snap2) : bool := beq_snap (fst a) (fst b) && beq_list Z.eqb (snd a) (snd b).
+
 (* candidates that showed every snapshot the harness took *)
-Fixpoint run_sched_nd (v : variant) (auto_app : bool) (gs : list (list event)) (snaps : list snap) (cs : list cand) : list cand :=
+Fixpoint run_sched_nd (v : variant) (auto_app : bool) (gs : list (list event)) (snaps : list snap2) (cs : list cand) : list cand :=
   match gs, snaps with
   | [], [] => cs
   | g :: gr, sn :: sr =>
     run_sched_nd v auto_app gr sr
-      (dedup (filter (fun p => beq_snap (snapshot (fst p)) sn) (flat_map (run_group_nd v auto_app g) cs)))
+      (dedup (filter (fun p => beq_snap2 (snapshot2 (fst p)) sn) (flat_map (run_group_nd v auto_app g) cs)))
   | _, _ => []
   end.
 
 (* the run of the model that shows the snapshots and the final observation, if there is one *)
-Definition sched_nd (v : variant) (auto_app : bool) (gs : list (list event)) (snaps : list snap) (final : obs) : option cand :=
+Definition sched_nd (v : variant) (auto_app : bool) (gs : list (list event)) (snaps : list snap2) (final : obs) : option cand :=
   find (fun p => beq_obs (observe (fst p)) final)
        (run_sched_nd v auto_app gs snaps (settle_nd v auto_app false settle_fuel [] (init, []))).
 
 (* the generated cases: what the implementation showed after every forced event
    and at the end is what ONE of the runs the model admits for these forced events shows *)
-Definition sched_admits (v : variant) (auto_app : bool) (evs : list (list event)) (snaps : list snap) (final : obs) : bool :=
+Definition sched_admits (v : variant) (auto_app : bool) (evs : list (list event)) (snaps : list snap2) (final : obs) : bool :=
   match sched_nd v auto_app evs snaps final with Some _ => true | None => false end.
 
 (* ------------------------------------------- the peer and callers of C05 *)
@@ -765,7 +773,7 @@ Definition sched_env_ok (v : variant) (auto_app : bool) (gs : list (list event))
   | None => false
   end.
 (* the same for the run [sched_nd] selects *)
-Definition sched_env_admits (v : variant) (auto_app : bool) (gs : list (list event)) (snaps : list snap) (final : obs) : bool :=
+Definition sched_env_admits (v : variant) (auto_app : bool) (gs : list (list event)) (snaps : list snap2) (final : obs) : bool :=
   match sched_nd v auto_app gs snaps final with
   | Some (_, tr) => match erunb v init tr with Some _ => true | None => false end
   | None => false
